@@ -155,8 +155,9 @@ for name in sorted(os.listdir(S)):
     latest = {}
     for r in rs:
         latest[r["check"]] = r
+    base = "/repo at 3f6a2b3: the later fix eb8f3ae rewrites the function this change edits (git -C /repo checkout 3f6a2b3 -- pilota-thrift-parser/src/parser/constant.rs before applying)" if name in ("C15-m3", "C16-m6", "C20-m4") else "/repo HEAD"
     meta = {
-        "id": name, "property": prop, "where": where, "change": what, "needs_to_manifest": needs,
+        "id": name, "property": prop, "where": where, "change": what, "needs_to_manifest": needs, "applies_to": base,
         "confirmed": "tools/seeded.sh verify in a scratch worktree: patch applies, existing tests pass with it, demo fails with it and passes without it (verify.log)",
         "checks_run": [f"tools/seeded.sh run {name} {c}  (git -C /repo apply; harness/run.sh {c} quick; git -C /repo checkout -- .)" for c in latest],
         "outcomes": list(latest.values()),
